@@ -1,7 +1,7 @@
 #!/bin/bash
 # Runs every hand-written mutant (must be caught) and every benign variant (must stay silent) against the check of the
 # property named by the file prefix; writes selftest/results.json.  Development aid, not a registered check.
-cd /verif
+cd "$(dirname "$0")/.."
 OUT=selftest/results.json; echo "[" > $OUT; first=1
 for kind in mutants benign; do
   for p in selftest/$kind/*.patch; do
